@@ -39,6 +39,7 @@ class BuildResult:
         self.trusted = []       # (kind, generated line, text)
         self.fn_spans = []      # (gen_line0, gen_line1, qualified name) for extracted fns
         self.unaccounted = []   # `count` directives that do not match: places the unit does not account for (no HELD then)
+        self.absent_loops = []  # `loop @n` directives whose loop does not exist (informational)
         self.lost = []          # soft-lost anchors (hint/loop/sub that no longer matches); proof may still go through
 
 
@@ -265,6 +266,13 @@ def build(template_path, repo, variant="strict", inline=None):
                 # `loop k` or `loop k \`header text\``: with a text, the k-th loop's header must contain that token sequence,
                 # otherwise the invariants are NOT attached (lost anchor): a loop added or removed by a change shifts the
                 # ordinals, and invariants on the wrong loop would fail for no semantic reason
+                mm_ = re.match(r"loop\s+@(\d+)\s+`(.*?)`(?:\s+has\s+`(.*)`)?\s*$", d2)
+                if mm_:
+                    # `loop @n \`header text\``: the n-th loop WHOSE HEADER CONTAINS the text (robust against loops added
+                    # or removed elsewhere in the function)
+                    # `... has \`body text\``: and whose body contains that token sequence
+                    cur = opts["loops"].setdefault(("m", int(mm_.group(1)), mm_.group(2), mm_.group(3)), [])
+                    continue
                 ml = re.match(r"loop\s+(\d+)(?:\s+`(.*)`)?\s*(\?)?\s*$", d2)
                 cur = opts["loops"].setdefault(int(ml.group(1)), [])
                 if ml.group(2):
@@ -439,6 +447,26 @@ def build(template_path, repo, variant="strict", inline=None):
             opts["hints"] = [((("before", 1, "/*VX_LOOPEND_%d*/" % nth, content, o2)) if pos == "loopend" else (pos, nth, anchor, content, o2)) for (pos, nth, anchor, content, o2) in opts["hints"]]
             ins = {}
             for kord, content in opts["loops"].items():
+                if isinstance(kord, tuple):
+                    (_m, nth_, want_, has_) = kord
+                    wt = [t.text for t in R.lex(want_) if t.kind not in ("ws", "lcomment", "bcomment")]
+                    ht = [t.text for t in R.lex(has_) if t.kind not in ("ws", "lcomment", "bcomment")] if has_ else None
+                    cands_ = []
+                    for lo_ in loops:
+                        hd = R.loop_header(body, lo_)
+                        if any(hd[q:q + len(wt)] == wt for q in range(len(hd) - len(wt) + 1)):
+                            if ht is not None:
+                                bt = [t.text for t in body[lo_:match_close(body, lo_)] if t.kind not in ("ws", "lcomment", "bcomment")]
+                                if not any(bt[q:q + len(ht)] == ht for q in range(len(bt) - len(ht) + 1)):
+                                    continue
+                            cands_.append(lo_)
+                    if nth_ < 1 or nth_ > len(cands_):
+                        # not a lost anchor: if the loop still exists in another shape it has no `decreases` now, which Verus
+                        # rejects (no verdict); if it is gone, its invariants are moot
+                        res.absent_loops.append("%s: loop #%d with a header containing `%s`%s not found (%d such loops)" % (where, nth_, want_, (" and a body containing `%s`" % has_) if has_ else "", len(cands_)))
+                        continue
+                    ins[cands_[nth_ - 1]] = content
+                    continue
                 if kord < 1 or kord > len(loops):
                     if kord not in opts.get("loop_optional", set()):
                         res.lost.append("%s: loop %d not found (%d loops)" % (where, kord, len(loops)))
